@@ -31,6 +31,8 @@ pub struct Node {
     // the engine's own successor object when it differs from the true position (an upstream defect):
     // exploration then continues in lock-step, engine object beside true position
     pub diverged: Option<Box<BoardState>>,
+    // reached by following a special move (castling, en passant, promotion) one ply beyond the depth limit
+    pub ext: bool,
     pub root: Arc<String>,
     pub path: Option<Arc<PathNode>>,
     pub depth: u16,
@@ -38,7 +40,7 @@ pub struct Node {
 
 impl Node {
     pub fn root(pos: Pos) -> Node {
-        Node { pos, promo: None, oh: 0, last: None, cap: false, cap_len: 0, diverged: None, root: Arc::new(pos.fen()), path: None, depth: 0 }
+        Node { pos, promo: None, oh: 0, last: None, cap: false, cap_len: 0, diverged: None, ext: false, root: Arc::new(pos.fen()), path: None, depth: 0 }
     }
     pub fn board(&self, h: &ZobristHasher) -> BoardState {
         if let Some(d) = &self.diverged {
@@ -203,7 +205,11 @@ impl<'a> Explorer<'a> {
     }
 
     /// Check one node; push the children to expand into `out`.
-    pub fn check_node(&self, node: &Node, expand: bool, out: &mut Vec<Node>, l: &mut Local) {
+    pub fn check_node(&self, node: &Node, max_depth: u16, out: &mut Vec<Node>, l: &mut Local) {
+        let expand = node.depth < max_depth;
+        // special moves are followed one ply beyond the limit: what they leave behind (rights, targets,
+        // descriptors, discovered lines) only shows in what is generated next
+        let extend = node.depth == max_depth && !node.ext && !node.cap;
         let rep = self.rep;
         let h = &self.h;
         let pos = &node.pos;
@@ -341,9 +347,14 @@ impl<'a> Explorer<'a> {
                         }
                     }
                 }
-                if expand {
+                // (promotions are extended in the thorough tier only; the promo+rights family follows them anyway)
+                let special = pos.is_castle(&mv) || pos.is_en_passant(&mv) || (mv.promo != 0 && !self.rep.quick());
+                if expand || (extend && special) {
                     if !ok {
                         bump(l, "states_where_engine_object_and_true_position_differ");
+                    }
+                    if !expand {
+                        bump(l, "special_moves_followed_one_ply_beyond_the_depth_limit");
                     }
                     let child = Node {
                         pos: want,
@@ -353,6 +364,7 @@ impl<'a> Explorer<'a> {
                         cap: false,
                         cap_len: 0,
                         diverged: if ok { None } else { Some(Box::new(succ.clone())) },
+                        ext: !expand,
                         root: node.root.clone(),
                         path: Some(Arc::new(PathNode { parent: node.path.clone(), mv, cap: false })),
                         depth: node.depth + 1,
@@ -425,6 +437,7 @@ impl<'a> Explorer<'a> {
                         cap: true,
                         cap_len: node.cap_len + 1,
                         diverged: if ok { None } else { Some(Box::new(succ.clone())) },
+                        ext: node.ext,
                         root: node.root.clone(),
                         path: Some(Arc::new(PathNode { parent: node.path.clone(), mv, cap: true })),
                         depth: node.depth, // capture chains do not consume the depth budget: they run to their end
@@ -536,7 +549,7 @@ impl<'a> Explorer<'a> {
         let mut out: Vec<Node> = Vec::new();
         while let Some(node) = stack.pop() {
             out.clear();
-            self.check_node(&node, node.depth < max_depth, &mut out, l);
+            self.check_node(&node, max_depth, &mut out, l);
             for c in out.drain(..) {
                 if self.first_visit(c.key(), max_depth.saturating_sub(c.depth)) {
                     stack.push(c);
@@ -577,9 +590,8 @@ impl<'a> Explorer<'a> {
                                 break;
                             }
                             for node in &fr[i..(i + chunk).min(fr.len())] {
-                                let expand = node.depth < max_depth;
                                 out.clear();
-                                self.check_node(node, expand, &mut out, &mut local);
+                                self.check_node(node, max_depth, &mut out, &mut local);
                                 for c in out.drain(..) {
                                     if self.first_visit(c.key(), max_depth.saturating_sub(c.depth)) {
                                         keep.push(c);
@@ -625,7 +637,7 @@ pub fn walk(ex: &Explorer, root_fen: &str, path: &[String]) -> Result<Node, Stri
         let board = node.board(&ex.h);
         let succs = generate_moves(&board, if cap { MoveGenerationMode::CapturesOnly } else { MoveGenerationMode::AllMoves }, &ex.h);
         let succ = succs.iter().find(|s| move_of_successor(&node.pos, s) == Some(mv)).ok_or(format!("the engine no longer generates {} from {}", mv.uci(), node.pos.fen()))?;
-        node = Node { pos: node.pos.make(&mv), promo: succ.pawn_promotion, oh: succ.order_heuristic, last: succ.last_move, cap, cap_len: if cap { node.cap_len + 1 } else { 0 }, diverged: if diff_board(succ, &node.pos.make(&mv)).is_some() || succ.zobrist_key != scratch_key(&node.pos.make(&mv), &ex.h) { Some(Box::new(succ.clone())) } else { None }, root: node.root.clone(), path: Some(Arc::new(PathNode { parent: node.path.clone(), mv, cap })), depth: node.depth + 1 };
+        node = Node { pos: node.pos.make(&mv), promo: succ.pawn_promotion, oh: succ.order_heuristic, last: succ.last_move, cap, cap_len: if cap { node.cap_len + 1 } else { 0 }, diverged: if diff_board(succ, &node.pos.make(&mv)).is_some() || succ.zobrist_key != scratch_key(&node.pos.make(&mv), &ex.h) { Some(Box::new(succ.clone())) } else { None }, ext: false, root: node.root.clone(), path: Some(Arc::new(PathNode { parent: node.path.clone(), mv, cap })), depth: node.depth + 1 };
     }
     Ok(node)
 }
@@ -928,6 +940,80 @@ pub fn family_ep(mover: u8, only_file: i8) -> Vec<Pos> {
     out
 }
 
+/// En passant with a discovered check through the captured pawn's square: a slider of the capturing side,
+/// the victim pawn and the victim's king on one line (victim between, nothing else between), plus one further
+/// piece of the checked side anywhere (the piece that may or may not be allowed to move afterwards).
+pub fn family_ep_discovered(mover: u8, only_file: i8) -> Vec<Pos> {
+    let mut out = Vec::new();
+    let capturer = mover ^ 1;
+    let (pawn_rank, target_rank) = if mover == rules::WHITE { (3i8, 2i8) } else { (4i8, 5i8) };
+    let fixed_squares: [u8; 6] = [63, 56, 7, 0, 60, 4];
+    let f = only_file;
+    for side in 0..2 {
+        let cf = if side == 0 { f - 1 } else { f + 1 };
+        if !(0..8).contains(&cf) {
+            continue;
+        }
+        let victim = rules::sq_at(f, pawn_rank).unwrap();
+        let mut base = Pos::empty();
+        base.b[victim as usize] = rules::pc(mover, rules::P);
+        base.b[rules::sq_at(cf, pawn_rank).unwrap() as usize] = rules::pc(capturer, rules::P);
+        base.ep = rules::sq_at(f, target_rank);
+        base.stm = capturer;
+        // lines through the victim square: both diagonals and the rank
+        for (df, dr) in [(1i8, 1i8), (1, -1), (1, 0)] {
+            for dir in [1i8, -1] {
+                // slider on one side, king on the other
+                for ds in 1..8i8 {
+                    let ssq = match rules::sq_at(f + dir * df * ds, pawn_rank + dir * dr * ds) {
+                        Some(x) => x,
+                        None => break,
+                    };
+                    if base.b[ssq as usize] != rules::EMPTY {
+                        break;
+                    }
+                    for dk in 1..8i8 {
+                        let ksq = match rules::sq_at(f - dir * df * dk, pawn_rank - dir * dr * dk) {
+                            Some(x) => x,
+                            None => break,
+                        };
+                        if base.b[ksq as usize] != rules::EMPTY {
+                            break;
+                        }
+                        let sliders: &[u8] = if dr == 0 { &[rules::R, rules::Q] } else { &[rules::B, rules::Q] };
+                        for &sk in sliders {
+                            let mut b1 = base;
+                            b1.b[ssq as usize] = rules::pc(capturer, sk);
+                            b1.b[ksq as usize] = rules::pc(mover, rules::K);
+                            for xk in [rules::N, rules::B, rules::R, rules::Q, rules::P] {
+                                for xs in 0..64u8 {
+                                    if b1.b[xs as usize] != rules::EMPTY || !pawn_rank_ok(rules::pc(mover, xk), xs) {
+                                        continue;
+                                    }
+                                    let mut b2 = b1;
+                                    b2.b[xs as usize] = rules::pc(mover, xk);
+                                    for &fk in &fixed_squares {
+                                        if b2.b[fk as usize] != rules::EMPTY {
+                                            continue;
+                                        }
+                                        let mut b3 = b2;
+                                        b3.b[fk as usize] = rules::pc(capturer, rules::K);
+                                        if b3.is_legal_position() {
+                                            out.push(b3);
+                                            break;
+                                        }
+                                    }
+                                }
+                            }
+                        }
+                    }
+                }
+            }
+        }
+    }
+    out
+}
+
 /// Promotion family: pawn of `color` one step from promotion, kings per mode, one enemy piece (or none)
 /// anywhere; with `with_rights` the enemy king sits at home with rook(s) and rights (corner captures).
 pub fn family_promo(color: u8, with_rights: bool, only_file: i8) -> Vec<Pos> {
@@ -1050,7 +1136,7 @@ pub fn run(rep: &Report, focus: Focus) -> E1Result {
 
     // ---- S1: reach graph, roots grouped by depth limit so that each group is one BFS
     let roots = s1_roots(quick);
-    let budget: u64 = if quick { if focus.captures { 2_000_000 } else { 400_000 } } else { 30_000_000 };
+    let budget: u64 = if quick { if focus.captures { 2_000_000 } else { 1_000_000 } } else { 40_000_000 };
     let mut by_depth: BTreeMap<u16, Vec<Node>> = BTreeMap::new();
     for (n, d) in roots {
         // capture chains multiply the work below every state: the quick tier of C13 goes one ply less deep
@@ -1160,6 +1246,17 @@ pub fn run(rep: &Report, focus: Focus) -> E1Result {
         }
         run_family(
             "ep (pawn just double-stepped with target set, enemy pawn left/right/both, one king anywhere, one slider/knight of either colour anywhere)",
+            items,
+            if quick { 0 } else { 1 },
+        );
+        let mut items: Vec<Item> = Vec::new();
+        for c in [rules::WHITE, rules::BLACK] {
+            for f in 0..8i8 {
+                items.push(Box::new(move || family_ep_discovered(c, f)));
+            }
+        }
+        run_family(
+            "ep-discovered (slider, victim pawn and the victim's king on one line, one further piece of the checked side anywhere; the capture is followed one ply)",
             items,
             if quick { 0 } else { 1 },
         );
